@@ -53,6 +53,40 @@ def py_spec_first_bad(kind, n, hist):
     q = q1[1:] if df else q1
   return None
 
+def py_deviations(kind, n, hist):
+  """Per-cycle deviations from the rules of the property, as (cycle, kind-of-deviation) pairs.  Unlike the strict replay
+  above (and the Coq one) the queue content here FOLLOWS THE OBSERVED TRANSFERS, so that deviations of different kinds in
+  one history are told apart (a known deviation does not mask a new one).  Used only to name/key and shrink findings."""
+  q, dev = [], []
+  for i, r in enumerate(hist):
+    if r['rst']: q = []; continue
+    full, empty = len(q) >= n, len(q) == 0
+    ef, df = bool(r['ef']), bool(r['df'])
+    er = (not full) or (kind == 1 and df)          # pipe: enqueue-when-full iff a dequeue happens this cycle
+    dr = (not empty) or (kind == 2 and ef)         # bypass: dequeue-when-empty iff an enqueue happens this cycle
+    if r['er'] is not None:
+      if bool(r['er']) != er: dev.append((i, 'enq-rdy-low' if er else 'enq-rdy-high'))
+      if ef != bool(r['we'] and r['er']): dev.append((i, 'enq-fire-inconsistent'))
+    elif ef != bool(r['we'] and er): dev.append((i, 'enq-fire-low' if er else 'enq-fire-high'))
+    if r['dr'] is not None:
+      if bool(r['dr']) != dr: dev.append((i, 'deq-rdy-low' if dr else 'deq-rdy-high'))
+      if df != bool(r['wd'] and r['dr']): dev.append((i, 'deq-fire-inconsistent'))
+    elif df != bool(r['wd'] and dr): dev.append((i, 'deq-fire-low' if dr else 'deq-fire-high'))
+    if r['cnt'] is not None and r['cnt'] != len(q): dev.append((i, 'count'))
+    q1 = q + [r['msg']] if ef else q
+    if df:
+      if not q1: dev.append((i, 'deq-from-empty'))
+      elif r['out'] != q1[0]: dev.append((i, 'wrong-msg'))
+      q1 = q1[1:]
+    if len(q1) > n: dev.append((i, 'overflow'))
+    q = q1
+  return dev
+
+def first_of_kind(kind, n, hist, what):
+  for i, k in py_deviations(kind, n, hist):
+    if k == what: return i
+  return None
+
 # ---------------------------------------------------------------------------------------------- drivers
 class Drv:
   """one simulated queue instance + the way its interface is driven for one cycle"""
@@ -298,15 +332,19 @@ def replay_fresh(d, offers):
   d.fresh()
   return [d.cycle(rst, we, msg, wd) for rst, we, msg, wd in offers]
 
-def shrink(d, hist):
-  """smallest history (found greedily) that still leaves the specification, by re-simulation on fresh instances"""
-  bad = py_spec_first_bad(d.kind, d.n, hist)
+def shrink(d, hist, find):
+  """smallest history (greedy delta debugging by re-simulation on fresh instances) on which find(history) still returns a cycle"""
+  bad = find(hist)
   if bad is None: return hist, None
   offers = [(r['rst'], r['we'], r['msg'], r['wd']) for r in hist[:bad + 1]]
-  cur = replay_fresh(d, offers)
-  if py_spec_first_bad(d.kind, d.n, cur) is None: return hist[:bad + 1], bad
+  try:
+    cur = replay_fresh(d, offers)
+  except Exception:
+    return hist[:bad + 1], bad
+  if find(cur) is None: return hist[:bad + 1], bad      # depends on what earlier histories left behind: keep the original prefix
+  offers, cur = offers[:find(cur) + 1], cur[:find(cur) + 1]
   chunk = max(1, len(offers) // 2)
-  budget = 400                                   # re-simulations
+  budget = 300                                   # re-simulations
   while budget > 0:
     i, progress = 0, False
     while i < len(offers) and budget > 0:
@@ -314,7 +352,7 @@ def shrink(d, hist):
       budget -= 1
       try:
         h2 = replay_fresh(d, cand) if cand else []
-        b2 = py_spec_first_bad(d.kind, d.n, h2)
+        b2 = find(h2)
       except Exception:
         b2 = None
       if b2 is not None:
@@ -323,7 +361,7 @@ def shrink(d, hist):
         i += chunk
     if chunk > 1: chunk //= 2
     elif not progress: break
-  return cur, py_spec_first_bad(d.kind, d.n, cur)
+  return cur, find(cur)
 
 # ---------------------------------------------------------------------------------------------- main
 def run(ctx):
@@ -369,7 +407,8 @@ def run(ctx):
   t_coq = time.time()
   ctx.extra['queue_configurations'] = len(drivers) - len(unsupported)
   for d, e in unsupported:
-    ctx.violation(f'C17:{d.label}:construct', f'{d.label}: the queue cannot be built/simulated at this capacity: {type(e).__name__}: {str(e)[:200]}',
+    bits0 = isinstance(e, AssertionError) and 'Bits0' in str(e)      # clog2(1) == 0 -> mk_bits(0)
+    ctx.violation(f'C17:{d.label}:construct' + ('' if bits0 else f':{type(e).__name__}'), f'{d.label}: the queue cannot be built/simulated at this capacity: {type(e).__name__}: {str(e)[:200]}',
                   {'class': d.label, 'capacity': d.n, 'error': repr(e)[:500], 'expected': 'a FIFO of this capacity (property: any capacity)'})
   for i in (0, len(cases) // 3, 2 * len(cases) // 3, len(cases) - 1):
     d, tag, hist = meta[i]
@@ -378,34 +417,54 @@ def run(ctx):
   bad = ctx.coq_bad_indices('hist', IMPORTS, '', CASE_T, cases, 'case_ok c', shard=1500)
   ctx.extra['disagreeing_histories'] = len(bad)
   ctx.extra['coq_replay_s'] = round(time.time() - t_coq, 1)
-  by_label = {}
-  for i in bad: by_label.setdefault(meta[i][0].label, []).append(i)
-  picked = []
-  for label, idxs in by_label.items():
-    spec_bad = [i for i in idxs if py_spec_first_bad(meta[i][0].kind, meta[i][0].n, meta[i][2]) is not None]
-    picked.append(min(spec_bad or idxs, key=lambda i: len(meta[i][2])) if spec_bad else idxs[0])
-  ctx.extra['queues_with_disagreement'] = sorted(by_label)
-  for i in picked:
+  # group the disagreeing histories by queue and by KIND of deviation; one shrunk report (and one key) per group
+  groups, model_only = {}, {}
+  for i in bad:
+    d, tag, hist = meta[i]
+    if py_spec_first_bad(d.kind, d.n, hist) is None:
+      model_only.setdefault(d.label, i); continue
+    kinds = sorted(set(k for _, k in py_deviations(d.kind, d.n, hist))) or ['unclassified']
+    for k in kinds:
+      j = groups.get((d.label, k))
+      if j is None or len(meta[j][2]) > len(hist): groups[(d.label, k)] = i
+  ctx.extra['queues_with_disagreement'] = sorted(set(l for l, _ in groups) | set(model_only))
+  ctx.extra['deviation_kinds'] = sorted(f'{l}:{k}' for l, k in groups)
+  for label, i in model_only.items():
     d, tag, hist = meta[i]
     diag = ctx.coq_eval('diag', IMPORTS, '', [f'case_diagnosis {cases[i]}'])[0]
-    small, at = shrink(d, hist)
-    if at is None:
-      # the specification is respected but the concrete model (registers / raw signals) is not
-      m = re.search(r'Some (\d+)%?n?a?t?\)\s*$', diag)
-      ctx.violation(f'C17:{d.label}:model', f'{d.label}: history respects the FIFO spec but leaves the concrete Coq model (diagnosis {diag})',
-                    {'queue': d.label, 'plan': tag, 'diagnosis(spec,any)': diag, 'history': hist[:60], 'coq_case': cases[i][:4000]}, found_input=False)
-      continue
+    ctx.violation(f'C17:{d.label}:model', f'{d.label}: history respects the FIFO spec but leaves the concrete Coq model of this class (first bad cycle: spec, any = {diag})',
+                  {'queue': d.label, 'plan': tag, 'diagnosis(spec,any)': diag, 'history': hist[:60], 'coq_case': cases[i][:4000]}, found_input=False)
+  for (label, k), i in sorted(groups.items()):
+    d, tag, hist = meta[i]
+    if k == 'unclassified':
+      find = lambda h, d=d: py_spec_first_bad(d.kind, d.n, h)
+    else:
+      find = lambda h, d=d, k=k: first_of_kind(d.kind, d.n, h, k)
+    small, at = shrink(d, hist, find)
+    if at is None: small, at = hist, len(hist) - 1
     term = f'({d.mid if d.mid is not None else 0}, {d.kind}, {d.n}, [' + ';'.join(code(r) for r in small) + '])'
-    conf = ctx.coq_eval('conf', IMPORTS, '', [f'case_diagnosis {term}', f'case_expect {term} {at}%nat'])
-    r = small[at]
-    fields = [f for f, v in (('enq_rdy', 'er'), ('deq_rdy', 'dr'), ('enq_fire', 'ef'), ('deq_fire', 'df'), ('msg', 'out'), ('count', 'cnt'))]
-    ctx.violation(f'C17:{d.label}:history',
-                  f'{d.label} leaves the FIFO specification after {at + 1} cycle(s): inputs (rst,want_enq,msg,want_deq) = '
-                  f'{[(x["rst"], x["we"], x["msg"], x["wd"]) for x in small]}; observed in the last cycle enq_rdy={r["er"]} deq_rdy/val={r["dr"]} '
-                  f'enq_fire={r["ef"]} deq_fire={r["df"]} msg={r["out"]} count={r["cnt"]}; spec expects (enq_rdy,deq_rdy,enq_fire,deq_fire,msg,count,queue) = {conf[1]}',
-                  {'queue': d.label, 'kind': d.kind, 'capacity': d.n, 'plan': tag, 'offers(rst,want_enq,msg,want_deq)': [(x['rst'], x['we'], x['msg'], x['wd']) for x in small],
-                   'observed': small, 'spec_expects_last_cycle': conf[1], 'coq_diagnosis(first bad cycle spec, any)': conf[0], 'coq_case': term,
-                   'original_history_cycles': len(hist)})
+    conf = ctx.coq_eval('conf', IMPORTS, '', [f'case_diagnosis {term}'])
+    m = re.match(r'\(\s*Some (\d+)', conf[0])
+    if not m:
+      ctx.note(f'{label}:{k}: the shrunk history is not rejected by the Coq specification replay ({conf[0]}); reporting the original history')
+      small, at = hist, len(hist) - 1
+      term = cases[i]
+      conf = ctx.coq_eval('conf', IMPORTS, '', [f'case_diagnosis {term}'])
+      m = re.match(r'\(\s*Some (\d+)', conf[0])
+    cq = int(m.group(1)) if m else at
+    exp = ctx.coq_eval('exp', IMPORTS, '', [f'case_expect {term} {cq}%nat'])[0]
+    r = small[cq]
+    # the plain ":history" key is reserved for the mildest deviation (enq_rdy low although the queue is not full, nothing else
+    # wrong: back-pressure only, contents unaffected); every other kind of deviation carries its own suffix
+    key = f'C17:{d.label}:history' + ('' if k == 'enq-rdy-low' else f':{k}')
+    offers = [(x['rst'], x['we'], x['msg'], x['wd']) for x in small]
+    ctx.violation(key,
+                  f'{d.label} [{k}] leaves the FIFO specification in cycle {cq} of: (rst,want_enq,msg,want_deq) = {offers}; observed there enq_rdy={r["er"]} '
+                  f'deq_rdy/val={r["dr"]} enq_fire={r["ef"]} deq_fire={r["df"]} msg={r["out"]} count={r["cnt"]}; the Coq spec expects '
+                  f'(enq_rdy,deq_rdy,enq_fire,deq_fire,msg,count,queue) = {exp}',
+                  {'queue': d.label, 'kind': d.kind, 'capacity': d.n, 'deviation': k, 'plan': tag, 'offers(rst,want_enq,msg,want_deq)': offers,
+                   'observed': small, 'coq_first_bad_cycle(spec, any)': conf[0], 'coq_spec_expects_at_that_cycle': exp, 'coq_case': term,
+                   'deviations_by_cycle(python classifier)': py_deviations(d.kind, d.n, small), 'original_history_cycles': len(hist)})
 
 def main(ctx):
   ctx.trusted += ['Lib/QueueCheck.v (decoding of the observed-cycle tuples, dispatch to the model replays) and the drivers in harness/c17.py',
